@@ -18,7 +18,13 @@ rows to the storage entry points that are themselves sites of this rule.  `UPDAT
 `INSERT .. VALUES (5,1),(5,2)` under a unique index stored duplicates;
 (h) a UNIQUE index is not created over rows that already collide: in IndexManager::create_index the registration of the
 index (self.indexes.insert) is dominated by a test of the `unique` parameter whose true branch runs, before anything is
-registered, a loop with a set insertion whose "already present" answer leaves with an error.
+registered, a loop with a set insertion whose "already present" answer leaves with an error;
+(i) ALTER TABLE installs a constraint only over rows that satisfy it: in execute_add_constraint every arm that installs a
+constraint (PRIMARY KEY: the assignment of schema.primary_key; UNIQUE / CHECK / FOREIGN KEY: add_unique_constraint /
+add_check_constraint / add_foreign_key) is dominated, inside the arm, by a scan of the table's existing rows (directly
+or in a helper) from which an error exit is reachable before the installation; execute_add_column rejects a NOT NULL
+column without a value for the existing rows (an error exit decided by column_def.nullable and the row count) before
+add_column.
 Does NOT decide that the hash indexes are right (C15) or CHECK expression semantics."""
 import re
 from ..engine.callgraph import CallGraph
@@ -181,6 +187,7 @@ def run(ctx):
     shared.aligned_rule(ctx, 'C10.e', lambda f: f.nice.startswith('vibesql_executor::insert::') or f.nice.startswith('vibesql_executor::update::constraints'), floor=1)
     batch_uniqueness_rule(ctx)
     unique_index_creation_rule(ctx)
+    alter_validates_existing_rows_rule(ctx)
     shared.quantifier_rule(ctx, 'C10.f', lambda f: f.nice.startswith('vibesql_storage::table::') or f.nice.startswith('vibesql_executor::insert::')
                            or f.nice.startswith('vibesql_executor::update::constraints'), control_floor=2)
 
@@ -377,3 +384,84 @@ def unique_index_creation_rule(ctx):
     if not ok:
         ctx.finding('h/create_index', 'IndexManager::create_index registers a UNIQUE index without looking for keys that the existing rows share: CREATE UNIQUE INDEX over a column '
                     'with duplicates succeeds and the table violates its unique index from then on (INSERT (1,1),(1,2); CREATE UNIQUE INDEX u ON t(a) -> OK)', f.loc)
+
+
+def alter_validates_existing_rows_rule(ctx):
+    from ..engine.symexpr import Sym
+    from ..engine.cfg import cfg
+    from ..engine.paths import exit_classes, search
+    from ..engine.tables import enum_switches, arm_region
+    from . import shared
+    prog = ctx.prog
+    ctx.rule('C10.i', 'execute_add_constraint: per installing arm a Table::scan (direct or in a callee) dominates the installation and reaches an error exit that avoids it; '
+             'execute_add_column: an error exit decided by column_def.nullable and row_count precedes TableSchema::add_column')
+    f = ctx.fn(EX + 'alter::constraints::execute_add_constraint')
+    g = cfg(f)
+    s = Sym(f)
+    err, _ok = exit_classes(f)
+
+    def scans(t, depth=0):
+        cn = callee_name(t) or ''
+        if cn.endswith('table::Table::scan'):
+            return True
+        if depth < 2:
+            for h in prog.by_nice.get(cn, []):
+                if h.unit == 'vibesql_executor' and not shared.is_test(h):
+                    for hh in [h] + prog.children(h):
+                        if any(scans(t2, depth + 1) for _i, t2 in hh.calls()):
+                            return True
+        return False
+    INSTALL = {'Unique': 'add_unique_constraint', 'Check': 'add_check_constraint', 'ForeignKey': 'add_foreign_key'}
+    sws = enum_switches(prog, f, 'vibesql_ast::ddl::table::TableConstraintKind')
+    ctx.require(sws, 'execute_add_constraint: match on TableConstraintKind not found')
+    narms = 0
+    for sw in sws:
+        for vname in ('PrimaryKey', 'Unique', 'Check', 'ForeignKey'):
+            tb = sw['arms'].get(vname)
+            if tb is None:
+                continue
+            region = set(arm_region(f, tb))
+            installers = []
+            for b in region:
+                t = f.blocks[b]['t']
+                if vname in INSTALL and t['k'] == 'call' and (callee_name(t) or '').endswith('TableSchema::' + INSTALL[vname]):
+                    installers.append(b)
+                if vname == 'PrimaryKey':
+                    for st in f.blocks[b]['s']:
+                        if 'd' in st and any(isinstance(e, str) and e == '.primary_key' for e in st['d'][1]):
+                            installers.append(b)
+            if not installers:
+                continue
+            narms += 1
+            ok = True
+            for ib in installers:
+                good = False
+                for b in region:
+                    t = f.blocks[b]['t']
+                    if t['k'] == 'call' and b != ib and g.dominates(b, ib) and scans(t):
+                        reached, _ = search(f, [b], {ib}, loop_model=False)
+                        if reached & err:
+                            good = True
+                ok = ok and good
+            ctx.instance(f'i/add_constraint/{vname}', {'rule': 'C10.i', 'arm': vname, 'installers': len(installers), 'existing_rows_validated': ok})
+            if not ok:
+                ctx.finding(f'i/add_constraint/{vname}', f'ALTER TABLE ADD {vname} installs the constraint without looking at the rows already in the table: a table with '
+                            'duplicates / NULL keys / violating or orphan rows accepts the constraint and violates it from then on (INSERT (1,1),(1,2); ALTER TABLE t ADD '
+                            'CONSTRAINT u UNIQUE (a) -> OK)', f'{f.file}:{f.blocks[installers[0]]["t"]["l"]}')
+    ctx.floor('C10.i installing arms of execute_add_constraint', narms, 4)
+
+    ac = ctx.fn(EX + 'alter::columns::execute_add_column')
+    ga = cfg(ac)
+    sa = Sym(ac)
+    adds = [i for i, t in ac.calls() if (callee_name(t) or '').endswith('TableSchema::add_column')]
+    ctx.require(adds, 'execute_add_column: TableSchema::add_column not found')
+    erra, _ = exit_classes(ac)
+    okc = False
+    for e in erra:
+        conds = shared.deciding_conditions(ac, e, sa)
+        if any('column_def.nullable' in c for c, _v in conds) and any('row_count(' in c for c, _v in conds) and all(not ga.dominates(a, e) for a in adds):
+            okc = True
+    ctx.instance('i/add_column/not-null', {'rule': 'C10.i', 'rejects_not_null_without_value_for_existing_rows': okc})
+    if not okc:
+        ctx.finding('i/add_column/not-null', 'ALTER TABLE ADD COLUMN c T NOT NULL on a table with rows fills the new NOT NULL column with NULL (no error exit decided by '
+                    'column_def.nullable and the row count before add_column)', ac.loc)
